@@ -101,7 +101,9 @@ class C04(Property):
         return opts
 
     def generate(self, rng, tier, n):
-        cases = []
+        # the three renderers on explicit documents (deeply nested blocks, random balanced/unbalanced lists): no panic
+        from .C13 import C13
+        cases = C13.explicit_docs(rng, 30 if tier == "quick" else 300)
         k = 0
         while len(cases) < n:
             opts = self.gen_def(rng)
@@ -151,6 +153,20 @@ class C04(Property):
         out, nontrivial, dist = [], [], {}
         inv_ok, total_ok = {}, {}
         for c in cases:
+            if c.tags["role"] == "rdoc":
+                ic = impl.get(c.id)
+                dist["explicit_docs"] = dist.get("explicit_docs", 0) + 1
+                nontrivial.append(c.line())
+                if not ic or ic[0] != "RDOC" or len(ic) < 4:
+                    out.append(Finding("violation", c, "the renderers did not return on an explicit document: %s" % common.show(ic)))
+                elif ic[3] == "PANIC":
+                    # (html panics on Block::Meta and roff on Block::TermRef by design -- todo!() -- and bpaf never hands them
+                    # such a document: C16_render_html_succeeds; the console renderer has no such case)
+                    out.append(Finding("violation", c, "console rendering of an explicit document panicked"))
+                mc = model.get(c.id)
+                if mc and mc[0] == "RDOC" and len(mc) > 3 and mc[3] not in ("NOTUTF8", ic[3] if ic and len(ic) > 3 else None):
+                    out.append(Finding("disagree", c, "console text of an explicit document differs"))
+                continue
             if c.tags["role"] == "inv":
                 ic = impl.get(c.id)
                 inv_ok[c.tags["group"]] = bool(ic) and ic[0] == "INVARIANT" and ic[1] == "true"
@@ -161,7 +177,7 @@ class C04(Property):
                 total_ok[c.tags["group"]] = bool(mc) and mc[0] == "INVARIANT" and len(mc) > 2 and mc[2] == "true"
         for c in cases:
             role = c.tags["role"]
-            if role == "inv":
+            if role in ("inv", "rdoc"):
                 continue
             if not inv_ok.get(c.tags["group"], False):
                 dist["skipped(invariant)"] = dist.get("skipped(invariant)", 0) + 1
